@@ -35,13 +35,17 @@ type Profile struct {
 	ForeignPct     int     // percent of Jobs for which a foreign Pod occupies a task name
 	Spread         int     // seconds over which Job creations are spread
 	Namespaces     []string
-	Burst          bool // create several Jobs within the same second
-	CronJCs        int  // number of JobConfigs with a cron schedule (needs Options.Cron)
-	EditStartAfter int  // percent of startAfter Jobs whose startAfter is postponed by the user later
-	FutureKill     int  // percent of kills with a kill timestamp in the future
+	Burst          bool          // create several Jobs within the same second
+	CronJCs        int           // number of JobConfigs with a cron schedule (needs Options.Cron)
+	EditStartAfter int           // percent of startAfter Jobs whose startAfter is postponed by the user later
+	FutureKill     int           // percent of kills with a kill timestamp in the future
 	CronStopAfter  time.Duration // the user disables every cron schedule at this time (0: never), making the workload finite
 	HostileNames   bool          // JobConfig names containing dots and digits (the cron work item key is <ns>/<name>.<unix>)
 	DupRequests    int           // number of injected duplicate / out-of-order schedule requests
+	TemplateMeta   int           // percent of JobConfigs whose job template carries labels/annotations (incl. furiko-owned keys with stale values)
+	LateJobConfigs int           // percent of JobConfigs created later, at the very instant their first Job is created (JobConfig cache may lag behind the Job cache)
+	ClearKillPct   int           // percent of kills followed later by an update that removes spec.killTimestamp again (re-applied manifest)
+	ForceRemovePct int           // percent of Jobs whose finalizers are stripped by the user before deleting them (the object disappears while active)
 }
 
 // Workload is a generated case.
@@ -90,6 +94,7 @@ func Gen(r *rand.Rand, p Profile) *Workload {
 	type jcInfo struct {
 		ns, name string
 		pol      execution.ConcurrencyPolicy
+		at       time.Duration
 	}
 	var jcs []jcInfo
 	for i := 0; i < njc; i++ {
@@ -119,6 +124,20 @@ func Gen(r *rand.Rand, p Profile) *Workload {
 		}
 		tmpl := &jc.Spec.Template.Spec
 		genTemplate(r, p, tmpl)
+		if r.Intn(100) < p.TemplateMeta {
+			jc.Spec.Template.Labels = map[string]string{"team": "a"}
+			jc.Spec.Template.Annotations = map[string]string{"note": "from-template"}
+			switch r.Intn(3) {
+			case 0: // template metadata copy-pasted from an earlier Job
+				jc.Spec.Template.Annotations[AnnScheduleTime] = "1600000000"
+			case 1:
+				jc.Spec.Template.Labels[LabelJCUID] = "stale-uid"
+			}
+		}
+		createAt := time.Duration(0)
+		if r.Intn(100) < p.LateJobConfigs {
+			createAt = time.Duration(1+r.Intn(p.Spread)) * time.Second
+		}
 		if i < p.CronJCs {
 			jc.Spec.Schedule = &execution.ScheduleSpec{Cron: &execution.CronSchedule{Expression: []string{"0/10 * * * * * *", "0/15 * * * * * *", "0/20 * * * * * *", "5/30 * * * * * *"}[r.Intn(4)]}}
 		}
@@ -134,14 +153,14 @@ func Gen(r *rand.Rand, p Profile) *Workload {
 				}
 			}})
 		}
-		jcs = append(jcs, jcInfo{ns, name, pol})
+		jcs = append(jcs, jcInfo{ns, name, pol, createAt})
 		mc := int64(1)
 		if jc.Spec.Concurrency.MaxConcurrency != nil {
 			mc = *jc.Spec.Concurrency.MaxConcurrency
 		}
 		wl.Desc = append(wl.Desc, fmt.Sprintf("%s/%s:%s/%d", ns, name, pol, mc))
 		obj := jc
-		wl.Ops = append(wl.Ops, UserOp{At: 0, Name: "create jobconfig " + ns + "/" + name, Do: func(w *World) {
+		wl.Ops = append(wl.Ops, UserOp{At: createAt, Name: "create jobconfig " + ns + "/" + name, Do: func(w *World) {
 			if _, err := w.User.Furiko().ExecutionV1alpha1().JobConfigs(obj.Namespace).Create(context.Background(), obj, metav1.CreateOptions{}); err != nil {
 				w.Mon.Notes = append(w.Mon.Notes, "jobconfig create refused: "+err.Error())
 			}
@@ -183,6 +202,9 @@ func Gen(r *rand.Rand, p Profile) *Workload {
 			jc := jcs[r.Intn(len(jcs))]
 			ns = jc.ns
 			j.Spec.ConfigName = jc.name
+			if at < jc.at || (jc.at > 0 && r.Intn(2) == 0) {
+				at = jc.at // created in the same instant as (right after) its JobConfig
+			}
 			if r.Intn(5) == 0 {
 				// explicit start policy differing from the JobConfig's
 				j.Spec.StartPolicy = &execution.StartPolicySpec{ConcurrencyPolicy: p.Policies[r.Intn(len(p.Policies))]}
@@ -264,6 +286,28 @@ func Gen(r *rand.Rand, p Profile) *Workload {
 					cur.Spec.KillTimestamp = &k
 					if _, err := jobs.Update(context.Background(), cur, metav1.UpdateOptions{}); err != nil && !strings.Contains(err.Error(), "modified") {
 						w.Mon.Notes = append(w.Mon.Notes, "kill refused: "+err.Error())
+					}
+				}
+			}})
+		}
+		if r.Intn(100) < p.ClearKillPct {
+			clearAt := at + time.Duration(30+r.Intn(120))*time.Second
+			wl.Ops = append(wl.Ops, UserOp{At: clearAt, Name: "re-apply manifest without killTimestamp: " + name, Do: func(w *World) {
+				jobs := w.User.Furiko().ExecutionV1alpha1().Jobs(obj.Namespace)
+				if cur, err := jobs.Get(context.Background(), obj.Name, metav1.GetOptions{}); err == nil && cur.Spec.KillTimestamp != nil {
+					cur.Spec.KillTimestamp = nil
+					_, _ = jobs.Update(context.Background(), cur, metav1.UpdateOptions{})
+				}
+			}})
+		}
+		if r.Intn(100) < p.ForceRemovePct {
+			rmAt := at + time.Duration(2+r.Intn(60))*time.Second
+			wl.Ops = append(wl.Ops, UserOp{At: rmAt, Name: "strip finalizers and delete " + name, Do: func(w *World) {
+				jobs := w.User.Furiko().ExecutionV1alpha1().Jobs(obj.Namespace)
+				if cur, err := jobs.Get(context.Background(), obj.Name, metav1.GetOptions{}); err == nil {
+					cur.Finalizers = nil
+					if _, err := jobs.Update(context.Background(), cur, metav1.UpdateOptions{}); err == nil {
+						_ = jobs.Delete(context.Background(), obj.Name, metav1.DeleteOptions{})
 					}
 				}
 			}})
